@@ -232,7 +232,7 @@ class Program:
         for self_cmd, prog_cmd in zip(self.circuit, prog.circuit):
             names_eq = self_cmd.op.__class__ == prog_cmd.op.__class__
             param_eq = len(self_cmd.op.p) == len(prog_cmd.op.p) and all(
-                p1 == p2 for p1, p2 in zip(self_cmd.op.p, prog_cmd.op.p)
+                pu.parameters_equal(p1, p2) for p1, p2 in zip(self_cmd.op.p, prog_cmd.op.p)
             )
             modes_eq = len(self_cmd.reg) == len(prog_cmd.reg) and all(
                 m1 == m2 for m1, m2 in zip(self_cmd.reg, prog_cmd.reg)
